@@ -361,6 +361,27 @@ SA_UF = [
     UF(r'P->val\[[^;=]*?\] = (?P<e>[^;U]+);', 1),                          # P->val[row_end] = va * vp
 ]
 
+# the result P can have up to n * m entries (more than the inputs): its arrays get their own capacity
+SA_PCAP = r'''
+#define CAP_PNNZ (NMAX * NMAX + 1)
+#undef NEW_NNZ
+#define NEW_NNZ(T, n) NEW_CAP(T, n, CAP_PNNZ)
+/* crs_wf for a matrix whose col / val arrays have capacity CAP_PNNZ */
+static _Bool crs_wf_p(const crs *A, size_t nmax, size_t mmax)
+{
+  if (!(A->nrows <= nmax && A->ncols <= mmax)) return 0;
+  if (A->ptr[0] != 0) return 0;
+  for (size_t i = 0; i < NMAX + 1; ++i) if (i < A->nrows) {
+    if (!(A->ptr[i] <= A->ptr[i + 1])) return 0;
+  }
+  if (!(A->ptr[A->nrows] >= 0 && (size_t)A->ptr[A->nrows] < CAP_PNNZ)) return 0;
+  for (size_t j = 0; j < CAP_PNNZ; ++j) if (j < (size_t)A->ptr[A->nrows]) {
+    if (!(A->col[j] >= 0 && (size_t)A->col[j] < A->ncols)) return 0;
+  }
+  return 1;
+}
+'''
+
 SPEC_SA = r'''
 typedef V scalar_type;
 typedef struct { V relax; _Bool estimate_spectral_radius; int power_iters; } sa_params;   /* smoothed_aggregation::params (used members) */
@@ -377,6 +398,15 @@ static V sa_omega(const sa_params *prm)
   return UF_MUL(prm->relax, ((scalar_type)(UF_DIV(UF_CONST(2.0), UF_CONST(3)))));
 }
 typedef struct { _Bool pattern, vals; } sa_post;
+#ifndef TROWMAX
+#define TROWMAX NMAX
+#endif
+/* every row of the tentative prolongation has at most TROWMAX entries (1: the piecewise-constant case, nullspace.cols == 0) */
+static _Bool crs_row_len_le(const crs *T, ptrdiff_t k)
+{
+  for (size_t i = 0; i < NMAX; ++i) if (i < T->nrows) { if (T->ptr[i + 1] - T->ptr[i] > k) return 0; }
+  return 1;
+}
 /* Row i of  P = (I - omega D^-1 A^F) P_tent  (documented in smoothed_aggregation.hpp), evaluated densely per column:
  *   A^F: strong off-diagonal couplings of A kept, weak ones lumped to the diagonal; D = diag(A^F):
  *        d_i = ((0 + x_1) + x_2) + ...   over the diagonal entry and the weak off-diagonal entries of row i, in row order
@@ -384,15 +414,15 @@ typedef struct { _Bool pattern, vals; } sa_post;
  *                           = (-omega * inverse(d_i)) * a_ij    for a strong j != i
  *   P(i, c) = sum over the strong-or-diagonal entries (i,j) of row i in row order and the entries (j,c) of P_tent in row
  *             order of  (I - omega D^-1 A^F)_ij * P_tent(j, c)   (left fold: first term assigned, later terms added)
- *   pattern of row i = columns c with at least one such term, in order of first occurrence (no duplicates).
- * Rows whose filtered diagonal is_zero: D^-1 does not exist; only the pattern is stated.                              */
-static void sa_spec_row(const crs *A, const char *st, const crs *T, V omega, const crs *P, size_t i, sa_post *r)
+ *   pattern of row i = the set of columns c with at least one such term, each exactly once.
+ * Rows whose filtered diagonal is_zero: D^-1 does not exist; only the pattern is stated.
+ * Checked for ONE entry (i, c0) chosen arbitrarily by the harness (universal generalisation).                         */
+static void sa_spec_entry(const crs *A, const char *st, const crs *T, V omega, const crs *P, size_t i, size_t c0, sa_post *r)
 {
   const ptrdiff_t ab = A->ptr[i], ae = A->ptr[i + 1], b = P->ptr[i], e = P->ptr[i + 1];
   V d = MATH_zero(V);
-  V acc[NMAX]; _Bool has[NMAX]; ptrdiff_t ord[NMAX]; size_t cnt = 0;
+  V acc = 0; _Bool has = 0; int slots = 0; ptrdiff_t at = -1;
   r->pattern = r->vals = 1;
-  for (size_t c = 0; c < NMAX; ++c) { has[c] = 0; ord[c] = -1; }
   for (size_t t = 0; t < NMAX; ++t) { const ptrdiff_t j = ab + (ptrdiff_t)t; if (j < ae) {
     if ((size_t)A->col[j] == i || !st[j]) d = UF_ADD(d, A->val[j]);
   } }
@@ -404,18 +434,17 @@ static void sa_spec_row(const crs *A, const char *st, const crs *T, V omega, con
     if (ca != i && !st[ja]) continue;
     const V va = ca == i ? one_minus : UF_MUL(m, A->val[ja]);
     const ptrdiff_t tb = T->ptr[ca], te = T->ptr[ca + 1];
-    for (size_t u = 0; u < NMAX; ++u) { const ptrdiff_t jp = tb + (ptrdiff_t)u; if (jp < te) {
-      const size_t cp = (size_t)T->col[jp];
+    for (size_t u = 0; u < TROWMAX; ++u) { const ptrdiff_t jp = tb + (ptrdiff_t)u; if (jp < te && (size_t)T->col[jp] == c0) {
       const V term = UF_MUL(va, T->val[jp]);
-      if (!has[cp]) { has[cp] = 1; acc[cp] = term; ord[cnt] = (ptrdiff_t)cp; ++cnt; }
-      else acc[cp] = UF_ADD(acc[cp], term);
+      if (!has) { has = 1; acc = term; } else acc = UF_ADD(acc, term);
     } }
   } }
-  if ((size_t)(e - b) != cnt) r->pattern = 0;
-  for (size_t k = 0; k < NMAX; ++k) if (k < cnt) {
-    if (!(b + (ptrdiff_t)k < e && P->col[b + (ptrdiff_t)k] == ord[k])) r->pattern = 0;
-    else if (!dz && P->val[b + (ptrdiff_t)k] != acc[ord[k]]) r->vals = 0;
-  }
+  /* column c0 occurs in row i of P exactly once if it has a term, not at all otherwise (set equality, no duplicates,
+   * no unwritten slot: a slot holds some column c0 < ncols by well-formedness, and then c0 must have a term) */
+  if (e - b > (ptrdiff_t)NMAX) r->pattern = 0;
+  for (size_t t = 0; t < NMAX; ++t) { const ptrdiff_t p = b + (ptrdiff_t)t; if (p < e && (size_t)P->col[p] == c0) { ++slots; at = p; } }
+  if (slots != (has ? 1 : 0)) r->pattern = 0;
+  else if (has && !dz && P->val[at] != acc) r->vals = 0;
 }
 '''
 
@@ -424,17 +453,17 @@ sa_smooth = Unit(
     functions=['coarsening::smoothed_aggregation::transfer_operators(const Matrix&) [region: omega, counting pass, fill pass '
                'of the prolongation smoothing; aggregates and tentative prolongation are symbolic inputs]',
                'crs::set_size', 'crs::scan_row_sizes', 'crs::set_nonzeros'],
-    desc='P is n x ncols(P_tent), well-formed; row pattern == pattern of (A_strong + diag) * P_tent (first-occurrence order, no '
+    desc='P is n x ncols(P_tent), well-formed; row pattern == pattern of (A_strong + diag) * P_tent (no '
          'duplicate column); values P = (I - omega D^-1 A^F) P_tent as an order-sensitive fold over uninterpreted + * inverse, '
          'A^F = strong couplings with the weak ones lumped to the diagonal, omega = relax*(4/3)/rho or relax*(2/3)',
     cuts=dict(crs_member_cuts(),
               body=Cut(SMOOTHED, r'auto P = std::make_shared<Matrix>\(\);\s*P->set_size\(rows\(\*P_tent\), cols\(\*P_tent\), true\);',
                        kind='region', end=r'AMGCL_TOC\("smoothing"\);', rules=SA_RULES, uf=SA_UF)),
-    template='#define MODEL_UF 1\n#define CXC_UF_T unsigned short\n#define CAP_NNZ (NMAX * NMAX + 1)\n'
-             + BOUNDED_PRELUDE + ONE_MALLOC + COARSEN_PRELUDE + CRS_MEMBERS_C + SPEC_SA + r'''
+    template='#define MODEL_UF 1\n#define CXC_UF_T unsigned short\n'
+             + BOUNDED_PRELUDE + ONE_MALLOC + SA_PCAP + COARSEN_PRELUDE + CRS_MEMBERS_C + SPEC_SA + r'''
 WITNESS_CRS(A)
 WITNESS_CRS(T)
-int w_strong[CAP_NNZ], w_estimate, w_iters; V w_relax, w_rho; size_t w_i0;
+int w_strong[CAP_NNZ], w_estimate, w_iters; V w_relax, w_rho; size_t w_i0, w_c0;
 /* contract (enforced by the harness below):
  *   requires crs_wf(A), square, one stored diagonal per row, no duplicate column in a row; strong_connection has nnz slots
  *            (any content); P_tent is a well-formed n x m matrix without duplicate columns in a row (m <= NMAX)
@@ -458,20 +487,20 @@ void h_sa_smooth(void)
   crs *T = crs_input();
   sa_params prm; aggregates aggr;
   char st0[CAP_NNZ];
-  size_t i0;                                  /* ghost: the row the pattern / value clauses are checked for (arbitrary) */
+  size_t i0, c0;                              /* ghost: the entry (row, column) the pattern / value clauses are checked for (arbitrary) */
   { _Bool es; prm.estimate_spectral_radius = es ? 1 : 0; }
 #ifdef NROWS
   A->nrows = NROWS; A->ncols = NROWS;         /* variant: exact size */
 #endif
   REQUIRES(crs_wf(A, NMAX, NMAX, ZMAX) && A->nrows == A->ncols);
   REQUIRES(crs_rows_distinct(A) && crs_unique_diag(A));
-  REQUIRES(crs_wf(T, NMAX, NMAX, ZTMAX) && T->nrows == A->nrows && crs_rows_distinct(T));
-  REQUIRES(i0 < A->nrows);
+  REQUIRES(crs_wf(T, NMAX, NMAX, ZTMAX) && T->nrows == A->nrows && crs_rows_distinct(T) && crs_row_len_le(T, TROWMAX));
+  REQUIRES(i0 < A->nrows && c0 < T->ncols);
   aggr.count = T->ncols; aggr.id = 0; aggr.id_n = 0;
   aggr.strong_connection = (char *)malloc(CAP_NNZ); aggr.sc_n = (size_t)A->ptr[A->nrows];
   MIRROR_CRS(A, A); MIRROR_CRS(T, T);
   for (size_t j = 0; j < CAP_NNZ; ++j) { st0[j] = aggr.strong_connection[j]; w_strong[j] = aggr.strong_connection[j] != 0; }
-  w_estimate = prm.estimate_spectral_radius; w_iters = prm.power_iters; w_relax = prm.relax; w_rho = g_rho; w_i0 = i0;
+  w_estimate = prm.estimate_spectral_radius; w_iters = prm.power_iters; w_relax = prm.relax; w_rho = g_rho; w_i0 = i0; w_c0 = c0;
   crs_snap s, sT; crs_snapshot(A, &s); crs_snapshot(T, &sT);
   const sa_params prm0 = prm;
   g_thrown = 0; g_rho_calls = 0;
@@ -481,12 +510,12 @@ void h_sa_smooth(void)
   ENSURES(g_rho_calls == (prm0.estimate_spectral_radius ? 1 : 0) && (!g_rho_calls || (g_rho_A == A && g_rho_iters == prm0.power_iters)),
           "smoothing: the spectral radius of A is estimated exactly when estimate_spectral_radius is set (with prm.power_iters)");
   ENSURES(P->nrows == A->nrows && P->ncols == T->ncols, "smoothing: P is n x ncols(P_tent)");
-  ENSURES(crs_wf(P, NMAX, NMAX, CAP_NNZ - 1) && P->nnz == (size_t)P->ptr[P->nrows],
+  ENSURES(crs_wf_p(P, NMAX, NMAX) && P->nnz == (size_t)P->ptr[P->nrows],
           "smoothing: P is well-formed CRS (monotone ptr from 0, every column index in range)");
   {
     sa_post r;
-    sa_spec_row(A, st0, T, sa_omega(&prm0), P, i0, &r);
-    ENSURES(r.pattern, "smoothing: pattern of a row of P == pattern of (A_strong + diag) * P_tent, first-occurrence order, no duplicate column, every slot written");
+    sa_spec_entry(A, st0, T, sa_omega(&prm0), P, i0, c0, &r);
+    ENSURES(r.pattern, "smoothing: pattern of a row of P == pattern of (A_strong + diag) * P_tent: a column occurs exactly once if it has a contribution, never otherwise (no duplicate, no unwritten slot)");
     ENSURES(r.vals, "smoothing: P = (I - omega D^-1 A^F) P_tent entry by entry (A^F: weak couplings lumped to the diagonal; omega = relax*(4/3)/rho or relax*(2/3)), as a fold in row order");
   }
   for (size_t j = 0; j < CAP_NNZ; ++j) ENSURES(aggr.strong_connection[j] == st0[j], "frame: strong_connection is not modified");
@@ -498,8 +527,8 @@ void h_sa_smooth(void)
 ''',
     entry='h_sa_smooth', mode='unwound', unwind='NMAX*NMAX+3', model='uf (16-bit tokens)',
     types=['value_type', 'scalar_type'],
-    variants=[{'NMAX': 3, 'ZMAX': 5, 'ZTMAX': 3}],
-    thorough_variants=[{'NMAX': 3, 'ZMAX': 6, 'ZTMAX': 4}],
+    variants=[{'NMAX': 3, 'ZMAX': 5, 'ZTMAX': 3, 'TROWMAX': 1, 'NROWS': 3}, {'NMAX': 2, 'ZMAX': 4, 'ZTMAX': 3, 'TROWMAX': 2}],
+    thorough_variants=[{'NMAX': 3, 'ZMAX': 6, 'ZTMAX': 3, 'TROWMAX': 1, 'NROWS': 3}, {'NMAX': 2, 'ZMAX': 4, 'ZTMAX': 4, 'TROWMAX': 2}],
     bound_text='all square matrices with n <= 3, nnz <= 5 (thorough 6), one stored diagonal per row, no duplicate column in a row; '
                'every 0/1 strong-connection flag array; every well-formed tentative prolongation n x m, m <= 3, nnz <= 3 (thorough 4), '
                'no duplicate column in a row; values, relax, rho uninterpreted; all symbolic',
@@ -509,11 +538,11 @@ void h_sa_smooth(void)
         'A-given: aggregates (strong_connection) and the tentative prolongation are given inputs; backend::spectral_radius is an '
         'opaque callee whose result is a ghost input'],
     replay='coarsening', timeout=600,
-    witness=wit('A', 'T') + ['w_strong', 'w_estimate', 'w_iters', 'w_relax', 'w_rho', 'w_i0'],
+    witness=wit('A', 'T') + ['w_strong', 'w_estimate', 'w_iters', 'w_relax', 'w_rho', 'w_i0', 'w_c0'],
     not_decided=['rows whose filtered diagonal is zero (values)', 'floating-point evaluation, hence "rows sum to one" as a numerical statement',
                  'the statements before the region: Aggregates, eps_strong *= 0.5, tentative_prolongation (separate units)',
                  'backend::spectral_radius'],
 )
-sa_smooth.unwindset = [(REPO_LOOPS, 'NMAX+1')]
+sa_smooth.unwindset = [(r'for\(ptrdiff_t jp', 'TROWMAX+1'), (REPO_LOOPS, 'NMAX+1')]
 
 UNITS = [rs_interp, sa_smooth]
